@@ -2,6 +2,8 @@
 from mirq import callee, fmt_origin, is_self_field, origin_calls, strip_refs
 from props import net
 
+THOROUGH_CONFIGS = ["default", "blocking", "websocket", "all"]
+
 EXPLANATION = (
     "Path rules on the MIR of Framed::read / read_buf (blocking: optimized MIR; tokio: pre-transform coroutine MIR with Yield "
     "edges), same rules for both: R5.1 every path from function entry to the transport read passes the `buffer is empty` edge or "
